@@ -40,6 +40,11 @@ class BoolTree(Space):
             arr = np.array(bits, dtype=bool)
             got = check_min_burst_cycles(arr.copy(), min_n_cycles=m)
             exp = min_run_filter(bits, m)
+            pos = check_min_burst_cycles(arr.copy(), m)          # the same call with the threshold passed positionally
+            if [bool(x) for x in pos] != [bool(x) for x in got]:
+                return VIOL({'kind': 'positional', 'bits': case, 'm': m}, 'check_min_burst_cycles(x, m) differs from '
+                            'check_min_burst_cycles(x, min_n_cycles=m)', expected=[bool(x) for x in got],
+                            observed=[bool(x) for x in pos], evals=len(ms))
             if not isinstance(got, np.ndarray) or got.shape != (n,) or [bool(x) for x in got] != exp:
                 return VIOL({'kind': 'filter', 'bits': case, 'm': m}, 'min-run filter differs from run-length reference',
                             expected=exp, observed=np.asarray(got).tolist(), evals=len(ms))
@@ -69,5 +74,34 @@ class BoolTree(Space):
                   sample={'kept_for_m2': min_run_filter(bits, 2)} if len(lens) >= 2 else None)
 
 
+def eval_long(case):
+    """Long runs: a run of exactly L next to a run of L - 1 (and L + 1), thresholds m in {L - 1, L, L + 1}: every run length
+    up to the bound is tried exactly at, just below and just above the threshold."""
+    from bycycle.burst.utils import check_min_burst_cycles
+    L, layout = case
+    runs_ = {'start': [L, 1, max(L - 1, 0)], 'end': [max(L - 1, 0), 2, L], 'both': [L + 1, 1, L, 3, max(L - 1, 0)]}[layout]
+    bits = []
+    for i, r in enumerate(runs_):
+        bits += ([True] * r) if i % 2 == 0 else ([False] * r)
+    if layout == 'both':
+        bits = [False] + bits + [False]
+    nev = 0
+    for m in (L - 1, L, L + 1, float(L), np.int32(L), L + .5):
+        if m < 0:
+            continue
+        nev += 1
+        exp = min_run_filter(bits, m)
+        got = [bool(x) for x in check_min_burst_cycles(np.array(bits, dtype=bool), min_n_cycles=m)]
+        if got != exp:
+            return VIOL({'kind': 'filter-long', 'L': L, 'layout': layout, 'm': repr(m)},
+                        'runs of length %s with min_n_cycles=%r: filter differs from the run-length reference' % ([r for r in runs_[::2]], m),
+                        expected=[int(x) for x in exp], observed=[int(x) for x in got], evals=nev)
+    return OK(outcome=(L, layout), nontrivial=L >= 2, evals=nev)
+
+
 def spaces(tier, seed):
-    return [BoolTree(12 if tier == 'quick' else 16)]
+    from bcmc.explore import ProductSpace
+    Lmax = 260 if tier == 'quick' else 1200
+    return [BoolTree(12 if tier == 'quick' else 16),
+            ProductSpace('exact-runs<=%d' % Lmax, [list(range(1, Lmax + 1)), ['start', 'end', 'both']], eval_long,
+                         describe='for every run length L <= %d: runs of L-1, L, L+1 at the start / end / inside x thresholds L-1, L, L+1, L+.5' % Lmax)]
